@@ -6,7 +6,8 @@ META = {
     "explanation": "one (to three) real add_block/remove_block/replace_block/setter call(s) executed symbolically from an arbitrary compact well-formed pre-state on a SymFile: table length and live pattern enumerated; every block size, offset, format code, date, comment character and payload byte symbolic; assertions on an independent parse of the committed file",
     "bounds": {"quick": {"table_length_N": "1-3", "live_slots": "0..N (two type orders)", "steps": "1, plus 2-step sequences", "sizes": "any >= 1 with file < 2 GiB"},
                "thorough": {"table_length_N": "1-6, 14", "live_slots": "0..N (14: 0 and 3)", "steps": "1-3", "sizes": "any >= 1 with file < 2 GiB"}},
-    "outside_bounds": ["non-compact foreign files", "files of 2 GiB or more", "table lengths other than those listed", "I/O errors, concurrent writers"],
+    "rejection_causes": ["type already present", "table full", "type absent (remove / replace)", "comment of 256 / 257 / 300 characters", "comment not cp1252-encodable", "block raises before writing", "block raises after writing a symbolic non-empty prefix", "object that is not a Block", "creation date outside 32-bit seconds", "unused slot in front of a used one (tables [0, live...] and [live, 0, live...]) for add / replace / setters"],
+    "outside_bounds": ["non-compact foreign files other than the listed tables with an unused slot in front of used ones", "files of 2 GiB or more", "table lengths other than those listed", "I/O errors, concurrent writers"],
     "assumptions": ["OpaqueBlock stands for any block whose _write emits nBytes bytes (discharged for real blocks by C02)",
                     "SymFile buffering contract: writes become visible at flush/seek/read/truncate/close",
                     "induction: the step obligations are discharged from an arbitrary pre-state satisfying the compactness invariant"],
